@@ -65,6 +65,16 @@ func init() {
 		Rule: "command chains of 1..5 commands (sort N, head, tail, dedup, fillnull ± field list, bin ± span, stats by, where, eval, rename, fields; shape-only: every other command kind) planned by the real SetupQueryParallelism under GOMAXPROCS 1..4 and run over tables of 0..14 rows dealt out to the parallel chains in random batches; chains mixing a two-pass command before / after the first bottleneck, sort limits around the number of rows; non-trivial = executed, ≥3 rows, ≥2 chains or ≥2 batches"})
 }
 
+// suite "pipeplan_sort" (C05: order, limits, pagination): the same op format, machinery and Oracle answer as pipeplan, with the
+// generator restricted to chains of sort / head / tail behind a row-wise prefix (no stats, no two-pass command) and the direct
+// property checks phrased as C05 states them:
+//   - plan-sort/limit/…: the number of rows is not exactly min(N, rows) (reference) resp. depends on the chains / batches
+//   - plan-sort/order/…: the rows are not the first N of the whole input in sort order resp. depend on the chains / batches
+func init() {
+	register(&Suite{Name: "pipeplan_sort", Gen: genPlanSort, Exec: func(line string) Result { return execPlanMode(line, true) },
+		Rule: "chains [where|eval|rename|fields|fillnull f|bin span]* sort N [head|tail|sort|row-wise]* (and head/tail alone) planned by the real SetupQueryParallelism under GOMAXPROCS 1..4 over tables of 3..16 rows dealt out to the parallel sort chains in several batches each; limits N from 1 to more than the rows, so that the first merge round exceeds / reaches / misses the limit; non-trivial = ≥3 rows, ≥2 chains or ≥2 batches"})
+}
+
 var c06pAlphaRe = regexp.MustCompile(`^[A-Za-z]+$`)
 var c06pLowerRe = regexp.MustCompile(`^[a-z]+$`)
 
@@ -1100,7 +1110,10 @@ func (c c06pCmd) twoPass() bool {
 	return (c.kind == "fillnull" && len(c.base.fields) == 0) || (c.kind == "bin" && c.n == 0)
 }
 
-func execPlan(line string) Result {
+func execPlan(line string) Result { return execPlanMode(line, false) }
+
+// c05: phrase the direct property checks as C05 (order, limits) states them
+func execPlanMode(line string, c05 bool) Result {
 	op, ok := c06pParseOp(line)
 	if !ok {
 		return Result{Out: "bad-op", Tags: []string{"bad-op"}}
@@ -1189,6 +1202,12 @@ func execPlan(line string) Result {
 		if n == 1 {
 			sig = "plan-parallel/" + bott + "/batches"
 		}
+		if c05 {
+			sig = "plan-sort/order/rows-depend-on-chains-or-batches"
+			if got.status == "ok" && base.status == "ok" && len(got.rows) != len(base.rows) {
+				sig = "plan-sort/limit/row-count-depends-on-chains-or-batches"
+			}
+		}
 		if got.status == "hang" || got.status == "hang-skip" {
 			sig = "plan-hang/" + bott
 		}
@@ -1201,6 +1220,12 @@ func execPlan(line string) Result {
 			who = op.cmds[0].kind
 		}
 		sig := "plan-semantics/" + who + "/other"
+		if c05 {
+			sig = "plan-sort/order/not-the-first-rows-in-sort-order"
+			if base.status == "ok" && len(base.rows) != len(ref) {
+				sig = "plan-sort/limit/not-exactly-min-of-limit-and-rows"
+			}
+		}
 		res.Fails = append(res.Fails, PropFail{Sig: sig, Msg: fmt.Sprintf("GOMAXPROCS=1, one batch: [%s] %s  documented meaning: [%s]", a, base.msg, want)})
 	}
 	return res
@@ -1518,4 +1543,55 @@ func c06pStack() string {
 		}
 	}
 	return " at " + strings.Join(fr, " < ")
+}
+
+// generator of suite pipeplan_sort (C05)
+func genPlanSort(r *rand.Rand, n int, tier string) []string {
+	out := []string{
+		// sort 3 merged from three chains whose first merge round yields more than 3 rows; the merger is fetched again
+		"plan K=3 X=1 C=sort:3:+x,+id S=0:1,1:1,2:1,0:1,1:1,2:1,0:1,1:1,2:1 R=id~i1,x~i5,w~i0;id~i2,x~i1,w~i0;id~i3,x~i9,w~i0;id~i4,x~i3,w~i0;id~i5,x~i7,w~i0;id~i6,x~i2,w~i0;id~i7,x~i8,w~i0;id~i8,x~i4,w~i0;id~i9,x~i6,w~i0",
+		"plan K=2 X=1 C=sort:2:-x,+id|head:5 S=0:3,1:3 R=id~i1,x~i5,w~i0;id~i2,x~i3,w~i0;id~i3,x~i8,w~i0;id~i4,x~i1,w~i0;id~i5,x~i7,w~i0;id~i6,x~i4,w~i0",
+		"plan K=2 X=1 C=sort:3:+x,+id|sort:0:-id S=0:3,1:3 R=id~i1,x~i5,w~i0;id~i2,x~i3,w~i0;id~i3,x~i8,w~i0;id~i4,x~i1,w~i0;id~i5,x~i7,w~i0;id~i6,x~i4,w~i0",
+	}
+	rowwise := []string{"where", "eval", "rename", "fields", "fillnull", "bin"}
+	after := []string{"head", "tail", "sort", "head", "where", "eval", "fields"}
+	noTwoPass := func(c c06pCmd) bool { return !c.twoPass() }
+	for len(out) < n {
+		nrows := 3 + r.Intn(14)
+		k := []int{1, 2, 2, 3, 3, 4, 4}[r.Intn(7)]
+		rows := c06pGenRows(r, nrows, r.Intn(4) == 0, false)
+		parsedRows, _ := c06ParseRows(strings.Join(rows, ";"))
+		tableCols := c06Keys(parsedRows)
+		var chain []string
+		ok := true
+		ext := func(kinds []string, must func(c06pCmd) bool) {
+			if ok {
+				chain, ok = c06pExtend(r, chain, nrows, tableCols, kinds, must)
+			}
+		}
+		if r.Intn(8) == 0 { // no sort: head / tail exact under any batching
+			for i := r.Intn(2); i > 0; i-- {
+				ext(rowwise, noTwoPass)
+			}
+			ext([]string{"head", "tail"}, nil)
+			if r.Intn(2) == 0 {
+				ext([]string{"head", "tail"}, nil)
+			}
+		} else {
+			for i := r.Intn(3); i > 0; i-- {
+				ext(rowwise, noTwoPass)
+			}
+			// limits: far below the rows (the first merge round exceeds it), around the rows, none
+			lim := []int{1, 2, 3, nrows / 3, nrows / 2, nrows - 1, nrows, nrows + 1, 0}[r.Intn(9)]
+			ext([]string{"sort"}, func(c c06pCmd) bool { return int(c.n) == lim || (lim < 1 && c.n == 0) })
+			for i := r.Intn(3); i > 0; i-- {
+				ext(after, noTwoPass)
+			}
+		}
+		if !ok || len(chain) == 0 {
+			continue
+		}
+		out = append(out, fmt.Sprintf("plan K=%d X=1 C=%s S=%s R=%s", k, strings.Join(chain, "|"), c06pGenDeal(r, nrows, []int{0, 0, 2, 2, 3}[r.Intn(5)], k), strings.Join(rows, ";")))
+	}
+	return out[:n]
 }
